@@ -23,7 +23,8 @@ import vakt.rules as R
 MODULE = 'Props.C19'
 THEOREMS = ['Vakt.C19.never_dropped', 'Vakt.C19.irreversible_untouched_reported', 'Vakt.C19.rename_table_ok',
             'Vakt.C19.m3_irreversible_complete', 'Vakt.C19.m3_custom_kept', 'Vakt.C19.m3_rule_roundtrip',
-            'Vakt.C19.m4down_spec', 'Vakt.C19.m2_rule_roundtrip']
+            'Vakt.C19.m4down_spec', 'Vakt.C19.m2_rule_roundtrip',
+            'Vakt.C19.probes_ok']
 FLOOR = {'quick': 80, 'thorough': 1500}
 ASSUMPTIONS = ['MongoDB is the in-process fake client (documents deep-copied in and out, unique _id); real index operations '
                'and BSON corner cases are behind it',
